@@ -19,12 +19,23 @@ def cls(code):
 
 
 class SmtpHooks(QHooks):
-    tracked = frozenset()
+    tracked = frozenset(['G:reciplist'])
+    NRCPT = 2       # the conversation is explored for a message with two recipients
 
     def __init__(self):
         self.sites = {}
         self.table = {}
         self.quits = 0
+
+    def precise_arith(self, path):
+        return True         # recipient counters (an index, a remaining count, a number accepted) are concrete for two recipients
+
+    def materialize(self, E, path):
+        if path == 'G:reciplist.len':
+            return fs(self.NRCPT)
+        if path == 'G:reciplist.sa':
+            return fs(('&', 'RCPT[0]'))
+        return TOP
 
     def site(self, inst, x, ok, detail, E):
         prev = self.sites.get(inst)
@@ -100,15 +111,20 @@ class SmtpHooks(QHooks):
                 self.site('DATA-needs-an-accepted-recipient', x, self.g(E, '$anyr', 0) == 1, 'DATA sent although no recipient was accepted', E)
             E.set('$phase', fs(ph))
 
+    def _to_server(self, E, x, args):
+        a0 = x.args[0].strip()
+        if a0.k == 'un' and a0.args and a0.args[0].path() == 'G:smtpto':
+            return True
+        v = args[0]
+        return v is not TOP and len(v) == 1 and next(iter(v)) == ('&', 'G:smtpto')
+
     def prim_substdio_puts(self, E, x, args):
-        if x.args[0].strip().k == 'un' and x.args[0].strip().args and x.args[0].strip().args[0].path() == 'G:smtpto':
+        # a command is recognised by its verb, whichever output routine carries it (puts, put with the length, a helper's parameter)
+        if self._to_server(E, x, args):
             self._send(E, x, lit_of(E, x.args[1]))
         return [Outcome(ret=TOP)]
 
-    prim_substdio_putsflush = prim_substdio_puts
-
-    def prim_substdio_put(self, E, x, args):
-        return [Outcome(ret=TOP)]
+    prim_substdio_putsflush = prim_substdio_put = prim_substdio_putflush = prim_substdio_bput = prim_substdio_bputs = prim_substdio_puts
 
     def prim_substdio_flush(self, E, x, args):
         return [Outcome(ret=TOP)]
